@@ -27,14 +27,14 @@ def H(cfg):
 best = {}
 for p in sorted(glob.glob(os.path.join(driver.REPLAY_DIR, prop, "*.case"))):
     if p.endswith(".raw.case"): continue
-    txt = open(p).read()
+    txt = open(p, errors="replace").read()
     m = re.search(r"^# key: (.*)$", txt, re.M)
     if not m: continue
     key = m.group(1).strip()
     if key in have: continue
     if len(sys.argv) > 3 and not re.search(sys.argv[3], key): continue
     if not re.search(r"^kase ", txt, re.M): continue   # stale (pre-kase) file: decoding may have changed
-    if key not in best or len(txt) < len(open(best[key]).read()): best[key] = p
+    if key not in best or len(txt) < len(open(best[key], errors="replace").read()): best[key] = p
 for key, p in sorted(best.items()):
     mod, cfg = driver.case_meta(p)
     code, rkey, out = driver.replay_case(H(cfg), mod, p, cfg)
